@@ -1,8 +1,10 @@
 package go_zero
 
 import (
+	"fmt"
 	"net/http"
 	"net/http/httptest"
+	"strings"
 	"testing"
 
 	"github.com/zeromicro/go-zero/core/logx"
@@ -43,16 +45,19 @@ func c19ZeroHandler(kind string, calls *int) http.HandlerFunc {
 
 func TestVerifC19GoZeroGlobal(t *testing.T) {
 	defer c19Finish()
-	for _, withFallback := range []bool{false, true} {
+	// (fbStatus 0 = no fallback configured; the configured fallback chooses the status it likes, error class or not)
+	for _, fbStatus := range []int{0, http.StatusServiceUnavailable, http.StatusOK, http.StatusNonAuthoritativeInfo} {
+		withFallback := fbStatus != 0
 		for _, hk := range []string{"ok", "error", "panic"} {
 			for _, blocked := range []bool{false, true} {
+				fbStatus := fbStatus
 				calls := 0
 				fallbackHit := false
 				var opts []Option
 				if withFallback {
 					opts = append(opts, WithBlockFallback(func(r *http.Request) (int, string) {
 						fallbackHit = true
-						return http.StatusServiceUnavailable, "fallback"
+						return fbStatus, "fallback"
 					}))
 				}
 				res := "GET:/c19/7"
@@ -63,13 +68,13 @@ func TestVerifC19GoZeroGlobal(t *testing.T) {
 				}
 				scenario := "default-rejection"
 				if withFallback {
-					scenario = "configured-fallback"
+					scenario = fmt.Sprintf("configured-fallback-%d", fbStatus)
 				}
 				c19Case(t, "go-zero", "SentinelMiddleware", scenario, res, blocked, hk, false, func() c19Drive {
 					w := c19ZeroServe(SentinelMiddleware(opts...), "/c19/:id", c19ZeroHandler(hk, &calls), "/c19/7")
 					rejected := w.Code == http.StatusTooManyRequests
 					if withFallback {
-						rejected = fallbackHit && w.Code == http.StatusServiceUnavailable
+						rejected = fallbackHit && w.Code == fbStatus && strings.Contains(w.Body.String(), "fallback")
 					}
 					return c19Drive{HandlerCalls: calls, Rejected: rejected}
 				})
